@@ -8,8 +8,8 @@ import (
 func init() {
 	register("C16", "--focusworkload is a pure filter of the full report", func(p *core.Program, r *core.Report) {
 		r.Explanation = "Structural necessary conditions, decided for all inputs and workload names at once: " +
-			"(C16-read/-call) the focus option is read only by the filter predicate, the existence check and two emptiness tests, and the predicate is called only where rows are selected - nothing derived from it reaches package eval or the ingress analyzer (non-interference by who-may-read/who-may-call); " +
-			"(C16-pred) the predicate is exactly `focus == \"\" || name == focus || namespace/name == focus` and the pair filter ends in pred(src) || pred(dst); " +
+			"(C16-read) the focus option is read only by the filter predicate, the existence check and two emptiness tests; (C16-call) in every function that consults the predicate, no call that writes policy-engine or ingress-analyzer state is control-dependent on it (path condition at each such call) - the filter decides rows, never what the engine is fed; " +
+			"(C16-pred) on every exit of the predicate its answer is equivalent, under the exit's path condition, to `focus == \"\" | name == focus | namespace/name == focus` (canonical atoms by what is compared with the option; any other test on the option breaks the equivalence), and every non-exclusion exit of the pair filter answers pred(src) | pred(dst) - whatever the shape (one expression, guard clauses, a switch); " +
 			"(C16-rows) every row construction is dominated by includePairOfWorkloads on the same pair (rule C05-a); " +
 			"(C16-absent) a focus that matches nothing appends a warning and returns a nil error. " +
 			"NOT decided: equality of focused and filtered-unfocused output on inputs (the lazily filled exposure data make this a runtime question under --exposure)."
